@@ -63,9 +63,14 @@ def gen(rng, facts):
                 cs = []
                 k = rng.random()
                 u = rng.randrange(nt + 1)
-                if k < 0.4: cs.append(('resume', u))                       # a flush caller wakes up in the middle of the poll
-                elif k < 0.7: cs.append(a_log(u)); cs.append(('tick', 1))
-                else: cs.append(('tick', 1)); cs.append(a_flush(u))
+                if k < 0.35: cs.append(('resume', u))                       # a flush caller wakes up in the middle of the poll
+                elif k < 0.6: cs.append(a_log(u)); cs.append(('tick', 1))
+                elif k < 0.8: cs.append(('tick', 1)); cs.append(a_flush(u))
+                else:
+                    # between two queue reads of one pass: a thread whose queue was already read logs, a later thread asks
+                    # for a flush, and more than the grace period passes before the later queue is read
+                    u1 = rng.randrange(nt); u2 = rng.randrange(nt)
+                    cs.append(a_log(min(u1, u2))); cs.append(('tick', 1)); cs.append(a_flush(max(u1, u2))); cs.append(('tick', g + 1 if g else 2))
                 if rng.random() < 0.3: cs.append(('resume', rng.randrange(nt)))
                 inj.append((y, v, cs))
             c.poll(inj)
